@@ -127,7 +127,7 @@ def insertByStamp (p : PA) : List PA → List PA
   | q :: qs => if p.stamp < q.stamp then p :: q :: qs else q :: insertByStamp p qs
 
 /-- A stable sort by timestamp: the default choice. -/
-def stableSort (l : List PA) : List PA := l.reverse.foldl (fun acc p => insertByStamp p acc) []
+def stableSort (l : List PA) : List PA := l.foldl (fun acc p => insertByStamp p acc) []
 
 /-- `removeExcessItems(delta)`: the first `delta` slots. -/
 def removeExcess : Nat → Nat → St → Except String St
